@@ -106,6 +106,9 @@ static void do_stop(char *line)
     } else if (!strcmp(tok[0], "evalstime") && nt >= 6) {  /* maxeval nevals start maxtime now */
         s.maxeval = atoi(tok[1]); nevals = atoi(tok[2]); s.start = parsehex(tok[3]); s.maxtime = parsehex(tok[4]); vnow = parsehex(tok[5]);
         printf("%d\n", nlopt_stop_evalstime(&s));
+    } else if (!strcmp(tok[0], "cls") && nt >= 2) {      /* cls x: nlopt_isinf nlopt_isfinite nlopt_istiny nlopt_isnan */
+        double v = parsehex(tok[1]);
+        printf("%d %d %d %d\n", !!nlopt_isinf(v), !!nlopt_isfinite(v), !!nlopt_istiny(v), !!nlopt_isnan(v));
     } else if (!strcmp(tok[0], "forced") && nt >= 2) {
         fstop = atoi(tok[1]);
         printf("%d\n", nlopt_stop_forced(&s) != 0);
